@@ -20,6 +20,7 @@ VERUS_TRUSTED = {
     r"pub fn flip_inputs": "flip_inputs kept with its real body but external_body: Verus sees it as the pure function sp_flip (meaning proved by Kani harness flip_inputs_negates_inputs)",
     r"fn perm_table\(\)": "perm_table(): OnceLock accessor, external_body with the contract of its doc comment table[i*65536+tt] == perm_tt(tt, ALL_PERMS[i]); the initialiser "
                           "closure body is proved against that contract as vp_perm_table_init (rule O9); trusted: OnceLock::get_or_init returns a reference to the value its closure returned",
+    r"u16::count_ones": "O5: assume_specification for u16::count_ones (result <= 16 only); unused at HEAD, present so that edits using it are ingested and judged by the contract",
     r"proof fn ax_identity_apply": "axiom A3 flip_inputs(perm_tt(tt,[0,1,2,3]),0) == tt: proved for every tt by Kani harness identity_transform_is_identity",
 }
 
